@@ -300,3 +300,8 @@ R.contract("CryptoPair._update_key", params={"trigger": "str"},
                "same(some(self.send.secret), hkdf_label(hash_of_suite(some(self.send.cipher_suite)), some(old(self.send.secret)), b'quicv2 ku' if v2(some(self.send.version)) else b'quic ku', b'', hash_of_suite(some(self.send.cipher_suite)).digest_size))",
            ],
            prop=["C02"])
+
+R.contract("CryptoContext.teardown", modifies=["self.aead", "self.cipher_suite", "self.hp", "self.secret"],
+           ensures=["self.aead is None and self.hp is None and self.cipher_suite is None and self.secret is None", "self.key_phase == old(self.key_phase)"], prop=["C02"])
+R.contract("CryptoPair.teardown", assume_pre=["self.recv is not self.send"], modifies=["self.recv.aead", "self.recv.cipher_suite", "self.recv.hp", "self.recv.secret", "self.send.aead", "self.send.cipher_suite", "self.send.hp", "self.send.secret"],
+           ensures=["self.recv.aead is None and self.send.aead is None"], prop=["C02"])
